@@ -17,6 +17,10 @@ import (
 
 type CaseStatic struct {
 	vt.Env
+	// Primers are earlier ParseStatic calls in the same process on variants of the feed ("second-half": only the second half of
+	// every file's rows, so ids keep their names but sit at other row indexes and references dangle; "reversed": every file's
+	// rows reversed; "other-zone": the first agency in another time zone). The checked parse must not depend on them.
+	Primers []string `json:",omitempty"`
 	Feed    *sgen.Feed
 	Pres    sgen.Presentation
 	Inherit bool
@@ -40,6 +44,7 @@ func checkC01(c CaseStatic) error {
 		return vt.Failf("malformed case")
 	}
 	ts := c.Feed.Tables()
+	runStaticPrimers(ts, c.Primers, c.Inherit)
 	s, err := parseStatic(ts, c.Pres, c.Inherit)
 	if err != nil {
 		if sgen.HasZeroByteMember(ts, c.Pres) {
@@ -60,6 +65,42 @@ func checkC01(c CaseStatic) error {
 		return vt.Failf("result depends on the presentation: %s", d)
 	}
 	return nil
+}
+
+// runStaticPrimers parses variants of ts and discards the results.
+func runStaticPrimers(ts sgen.Tables, kinds []string, inherit bool) {
+	for _, kind := range kinds {
+		v := ts.Clone()
+		for i := range v {
+			rows := v[i].Rows
+			switch kind {
+			case "second-half":
+				v[i].Rows = rows[len(rows)/2:]
+			case "reversed":
+				for a, b := 0, len(rows)-1; a < b; a, b = a+1, b-1 {
+					rows[a], rows[b] = rows[b], rows[a]
+				}
+			case "other-zone":
+				if v[i].Name == "agency.txt" && len(rows) > 0 {
+					if c := v[i].Col("agency_timezone"); c >= 0 {
+						if rows[0][c] == "Asia/Tokyo" {
+							rows[0][c] = "America/Los_Angeles"
+						} else {
+							rows[0][c] = "Asia/Tokyo"
+						}
+					}
+				}
+			}
+		}
+		parseStatic(v, sgen.Canonical(), !inherit)
+	}
+}
+
+func genStaticPrimers(t *rapid.T) []string {
+	if rapid.IntRange(0, 4).Draw(t, "staticPrimers?") != 0 {
+		return nil
+	}
+	return rapid.SliceOfN(rapid.SampledFrom([]string{"second-half", "reversed", "other-zone"}), 1, 3).Draw(t, "staticPrimers")
 }
 
 func staticClasses(f *sgen.Feed, info sgen.GenInfo, dims int) (classes []string, filesWith2 int) {
@@ -125,6 +166,9 @@ func propC01(t *rapid.T) {
 	p, dims := sgen.GenPresentation(t, f.Tables())
 	c := CaseStatic{Feed: f, Pres: p, Inherit: rapid.Bool().Draw(t, "inherit")}
 	c.Env = genEnv(t)
+	if inflated == 0 {
+		c.Primers = genStaticPrimers(t)
+	}
 	classes, files2 := staticClasses(f, info, dims)
 	if inflated > 0 {
 		classes = append(classes, fmt.Sprintf("inflated-to-%d-rows", inflated))
